@@ -128,11 +128,16 @@ def monitored(run, tier):
         p = progen.Gen(rng, call_profile()).program()
         if p.funcs:
             progs.append((f"calls/{len(progs)}", p))
-    vns = ["noinline", "pushpop", "tail", "default", "all"]
-    jobs = [((name, p), [vns[i % 5], vns[(i + 1) % 5]] if tier == "quick" else vns) for i, (name, p) in enumerate(progs)]
+    vns = ["noinline", "pushpop", "tail", "default", "all", "tailinline", "pushpopinline"]
+    jobs = [((name, p), [vns[i % 7], vns[(i + 1) % 7]] if tier == "quick" else vns) for i, (name, p) in enumerate(progs)]
+    from .. import idioms
+    for name, p in idioms.programs(rng):
+        if p.funcs:
+            jobs.append(((name, p), vns))
     import glob, os
-    for f in sorted(glob.glob(str(core.VERIF / "corpus" / "c06" / "findings" / "*.prog"))):
-        jobs.append(((f"corpus/c06/findings/{os.path.basename(f)[:-5]}", progen.Prog.load(open(f).read())), vns))
+    for sub in ("findings", "clean"):
+        for f in sorted(glob.glob(str(core.VERIF / "corpus" / "c06" / sub / "*.prog"))):
+            jobs.append(((f"corpus/c06/{sub}/{os.path.basename(f)[:-5]}", progen.Prog.load(open(f).read())), vns))
     from .c01 import compile_rot
     cases = compile_rot(jobs)
     oks = [c for c in cases if c.ok]
